@@ -99,7 +99,18 @@ def check_reader(rep, prog, fn):
         bv = ex.var_of(fg.args()[0]) if fg.args() else None
         bt = prog.base_type(prog.vars[bv]['ty']) if bv is not None else None
         size = (bt or {}).get('array_size')
+        if size is None and bv is not None:
+            # char *const buffer = line.data();  with  std::array<char, N> line
+            bd = ex.unique_def(fn, bv)
+            bdd = bd.strip_all() if bd is not None else None
+            if bdd is not None and bdd.k == 'CXXMemberCallExpr' and bdd.callee and bdd.callee['name'] == 'data' and bdd.object_arg() is not None:
+                at_ = prog.base_type(bdd.object_arg().strip_all().j.get('t')) or {}
+                if (at_.get('rec') or '') == 'std::array':
+                    ints_ = [a_['int'] for a_ in (at_.get('targs') or []) if isinstance(a_, dict) and 'int' in a_]
+                    size = ints_[0] if ints_ else None
         lim = fg.args()[1].strip_all().cv if len(fg.args()) > 1 else None
+        if lim is None and len(fg.args()) > 1:
+            lim = fg.args()[1].cv
         if size is None or lim is None:
             rep.undecided('R10f', fg, fn, whatf, 'buffer is not a fixed-size array or the fgets limit is not a constant')
         elif lim > size:
@@ -433,6 +444,24 @@ def check_reader(rep, prog, fn):
                 rep.violation('R10c', n, sf, whatc, 'the end() iterator is dereferenced for an undeclared vertex instead of raising an error',
                               key='R10c|%s|%s|deref' % (fn.g, prog.vars[mvar]['name']))
 
+    # R10d: the problem line declares the vertices whatever its problem word is (`p edge`, `p sp` of the `a`-line files, `p col`, ...):
+    # a literal word in the format makes every other header declare no vertex at all
+    if p_scan is not None:
+        whatp = 'the problem line is parsed for any problem word'
+        toks = p_scan[1].split()
+        word = toks[1] if len(toks) > 1 and toks[0] == 'p' else (toks[0][1:] if toks and toks[0].startswith('p') and len(toks[0]) > 1 else None)
+        if word is None:
+            rep.undecided('R10d', p_scan[0], fn, whatp, 'format `%s` not understood' % p_scan[1])
+        elif word.startswith('%') and word.rstrip('s').rstrip('0123456789').rstrip('*') == '%' and word.endswith('s'):
+            rep.ok('R10d', p_scan[0], fn, whatp, 'problem word matched by `%s`' % word)
+        elif word.startswith('%') and ('[' in word):
+            rep.ok('R10d', p_scan[0], fn, whatp, 'problem word matched by the scanset `%s`' % word)
+        elif not word.startswith('%'):
+            rep.violation('R10d', p_scan[0], fn, whatp, 'the format `%s` matches the literal problem word `%s` only: `p sp n m` / `p col n m` headers declare no vertex '
+                          '(every edge line then names an undeclared vertex, an edgeless file yields an empty graph)' % (p_scan[1], word),
+                          key='R10d|%s|problem-word' % fn.g)
+        else:
+            rep.undecided('R10d', p_scan[0], fn, whatp, 'problem word conversion `%s` is outside the table' % word)
     # R10d vertices
     whatv = 'one vertex per declared node, named 1..n'
     nvar = None
@@ -537,7 +566,7 @@ def check_reader(rep, prog, fn):
         # every a/e line reaches add_edge unless it throws: no other opaque guards
         opaque = [a for a in ex.f_atoms(g) if isinstance(a, tuple) and a[0] == 'opaque']
         opaque_nodes = [fn.nodes[a[1]] for a in opaque]
-        bad_opaque = [o for o in opaque_nodes if not is_lookup_guard(o) and not is_range_guard(o, vecvars, ints) and not (
+        bad_opaque = [o for o in opaque_nodes if not is_lookup_guard(o) and not is_range_guard(o, vecvars, ints) and not is_low_id_guard(o, ints) and not (
             line_loop.cond is not None and (line_loop.cond.is_ancestor_of(o) or line_loop.cond.strip() is o))]
         # tests of the sscanf conversion count: judged over the counts a valid edge line can produce
         nconv = len(binds)
@@ -737,6 +766,21 @@ def is_lookup_guard(n):
     for d in s.walk():
         if d.k == 'CXXMemberCallExpr' and d.callee and d.callee['name'] in ('find', 'count'):
             return True
+    return False
+
+
+def is_low_id_guard(n, keyvars):
+    """`id < 1` / `id <= 0` / `id == 0` on a scanned vertex id: declared vertices are named 1..n, so the test only ever rejects ids that
+    are not declared (the same lines the look-up rejects); it never holds for a well-formed edge line"""
+    s = n.strip_all()
+    if s.k == 'BinaryOperator' and s.op in ('<', '<=', '==', '>', '>='):
+        l, r, op = s.c[0], s.c[1], s.op
+        if ex.var_of(r) in keyvars and l.strip_all().cv is not None:
+            l, r = r, l
+            op = {'<': '>', '>': '<', '<=': '>=', '>=': '<=', '==': '=='}[op]
+        c = r.strip_all().cv
+        if ex.var_of(l) in keyvars and c is not None:
+            return (op == '<' and c <= 1) or (op == '<=' and c <= 0) or (op == '==' and c == 0)
     return False
 
 
@@ -1518,7 +1562,7 @@ def run(rep, tier):
     rep.rule('R10c', 'undeclared vertex raises an error before the vertex map is read', floor=2)
     rep.rule('R10d', 'one vertex per declared node named 1..n; one edge per edge line with its weight', floor=2)
     rep.rule('R10e', 'validators are exists-loops over the whole range with the right predicate', floor=6)
-    rep.rule('R10s', '%s conversions cannot overflow', floor=1)
+    rep.rule('R10s', '%s conversions cannot overflow', floor=0)
     tus = [env.witness_tu()]
     if tier == 'thorough':
         tus += env.demo_tus()
@@ -1529,6 +1573,12 @@ def run(rep, tier):
         readers += run_on(rep, prog)
     if readers == 0:
         rep.analysis_broken('parmcb::read_dimacs_from_file not instantiated (anchor vanished)')
+    # the graph types the demo programs hand to the reader (one edge per line needs an out-edge list that keeps parallel edges)
+    rep.rule('R11f', 'the graph types the demo programs read into keep parallel edges (add_edge succeeds for every `e` line)', floor=4)
+    from . import c11, common
+    for tu, dprog in env.extract(env.demo_tus(), 'full').items():
+        for m in common.mains(dprog):
+            c11.check_graph_type(rep, dprog, common.driver_body(dprog, m))
     pos = os.path.join(env.WITNESS, 'positive', 'c10_reader.cc')
     pp = env.extract([pos], 'full')[pos]
     prep = type(rep)(rep.prop, rep.tier)
